@@ -15,6 +15,7 @@ type GenParams struct {
 	Windows    []int
 	KV         bool
 	StorFaults bool // arm storage faults on some steps
+	ReorgMotif bool // append the shared-transaction reorganisation motif to some plans
 	MapOrders  bool
 	SmallCache bool
 	Defer      bool
@@ -120,6 +121,34 @@ func GenChainPlan(rt *rapid.T, p *GenParams) *ChainPlan {
 			}
 		}
 		pl.Steps = append(pl.Steps, st)
+	}
+	// shared-transaction reorganisation motif: one transfer reaches every node, two nodes confirm it in
+	// sibling blocks, one of them gets ahead and its chain is handed to the other through the sync path
+	// (the same transaction above the fork point on the abandoned and on the new trunk).
+	if p.ReorgMotif && pl.Nodes >= 2 && rapid.IntRange(0, 2).Draw(rt, "reorgmotif") == 2 {
+		extra := rapid.IntRange(1, 2).Draw(rt, "reorgextra")
+		pl.Steps = append(pl.Steps,
+			CStep{Op: "tx", N: 0, Via: 63, Amt: rapid.IntRange(0, 4).Draw(rt, "reorgamt")},
+			CStep{Op: "mine", N: 0, A: 1})
+		if rapid.Bool().Draw(rt, "reorglate") {
+			// the other node confirms it one block later: the block that switches the trunk carries it
+			pl.Steps = append(pl.Steps, CStep{Op: "mine", N: 1, A: 0, B: 0})
+		}
+		pl.Steps = append(pl.Steps, CStep{Op: "mine", N: 1, A: 1})
+		for i := 0; i < extra-1; i++ {
+			pl.Steps = append(pl.Steps, CStep{Op: "mine", N: 1, A: 1})
+		}
+		// handed over block by block through ConfirmBlock (the single consensus of these worlds refuses
+		// foreign producers on the sync path)
+		for i := 0; i < 3; i++ {
+			pl.Steps = append(pl.Steps, CStep{Op: "deliver", N: 0, Flag: true, Via: 1})
+		}
+		if rapid.Bool().Draw(rt, "reorgback") {
+			pl.Steps = append(pl.Steps, CStep{Op: "mine", N: 0, A: 1}, CStep{Op: "mine", N: 0, A: 1})
+			for i := 0; i < 5; i++ {
+				pl.Steps = append(pl.Steps, CStep{Op: "deliver", N: 1, Flag: true, Via: 1})
+			}
+		}
 	}
 	// fault-then-recover motif (drawn last so that earlier draws are unchanged): a pending write of a
 	// key, an own block whose confirmation or play hits a write error, a walk that rolls the pool back
